@@ -6,7 +6,7 @@ jsonschema.validate(json.load(open('/verif/MANIFEST.json')), json.load(open('/ro
 es = json.load(open('/root/.vp/EVIDENCE.schema.json'))
 man = json.load(open('/verif/MANIFEST.json'))
 claimed = {c['property_id'] for c in man['checks']}
-for f in sorted(glob.glob('/verif/evidence/*.json')):
+for f in sorted(f for f in glob.glob('/verif/evidence/*.json') if not f.endswith('.partial.json')):
     ev = json.load(open(f))
     try:
         jsonschema.validate(ev, es)
